@@ -6,7 +6,7 @@
 
 use std::alloc::{GlobalAlloc, Layout, System};
 use std::cell::Cell;
-use std::sync::atomic::{AtomicBool, AtomicI64, AtomicU64, Ordering};
+use std::sync::atomic::{AtomicBool, AtomicI64, AtomicU64, AtomicUsize, Ordering};
 use std::sync::Mutex;
 
 pub struct Counting;
@@ -57,14 +57,14 @@ unsafe impl GlobalAlloc for Counting {
 
     unsafe fn dealloc(&self, ptr: *mut u8, layout: Layout) {
         if ENABLED.load(Ordering::Relaxed) {
-            forget(ptr as usize);
+            forget(ptr as usize, Some(layout.size()));
         }
         System.dealloc(ptr, layout)
     }
 
     unsafe fn realloc(&self, ptr: *mut u8, layout: Layout, new_size: usize) -> *mut u8 {
         let was_tracked = if ENABLED.load(Ordering::Relaxed) {
-            forget(ptr as usize)
+            forget(ptr as usize, Some(layout.size()))
         } else {
             false
         };
@@ -91,7 +91,24 @@ fn record(p: usize, size: usize) {
     leave();
 }
 
-fn forget(p: usize) -> bool {
+/// (size the block was allocated with, size it was released with) of the first tracked block
+/// that was released with a layout other than its own; (0, 0) = none in this run. Releasing a
+/// block with another size is undefined behaviour (`GlobalAlloc::dealloc`: "layout must be the
+/// same layout that was used to allocate that block"), e.g. `Vec::from_raw_parts` with a wrong
+/// capacity.
+static MISMATCH_ALLOC: AtomicUsize = AtomicUsize::new(0);
+static MISMATCH_FREE: AtomicUsize = AtomicUsize::new(0);
+static MISMATCHES: AtomicUsize = AtomicUsize::new(0);
+
+pub fn layout_mismatch() -> (usize, usize, usize) {
+    (
+        MISMATCHES.load(Ordering::Relaxed),
+        MISMATCH_ALLOC.load(Ordering::Relaxed),
+        MISMATCH_FREE.load(Ordering::Relaxed),
+    )
+}
+
+fn forget(p: usize, released_with: Option<usize>) -> bool {
     if !enter() {
         return false;
     }
@@ -102,6 +119,12 @@ fn forget(p: usize) -> bool {
             let (_, size, _) = t.swap_remove(i);
             LIVE_TRACKED_BYTES.fetch_sub(size as i64, Ordering::Relaxed);
             found = true;
+            if let Some(r) = released_with {
+                if r != size && MISMATCHES.fetch_add(1, Ordering::Relaxed) == 0 {
+                    MISMATCH_ALLOC.store(size, Ordering::Relaxed);
+                    MISMATCH_FREE.store(r, Ordering::Relaxed);
+                }
+            }
         }
     }
     leave();
@@ -154,6 +177,9 @@ pub fn reset() {
     }
     LIVE_TRACKED_BYTES.store(0, Ordering::Relaxed);
     TRACKED_ALLOCS.store(0, Ordering::Relaxed);
+    MISMATCHES.store(0, Ordering::Relaxed);
+    MISMATCH_ALLOC.store(0, Ordering::Relaxed);
+    MISMATCH_FREE.store(0, Ordering::Relaxed);
     if e {
         leave();
     }
